@@ -14,6 +14,42 @@
 namespace vstd {
 using namespace ::std;
 
+// Virtual clocks.  Library code that measures time itself (a watchdog inside a spin loop, a deadline derived from
+// now()) must not depend on the wall clock of the harness, where a blocked thread waits for the scheduler, not for
+// time: every reading of a clock advances it by 700 ms, so "2 s have passed" becomes true after three polls.
+// The unmodified library never reads a clock (it only passes durations on), so nothing changes for it.
+namespace chrono {
+    using namespace ::std::chrono;
+    namespace detail_vclock {
+        inline long long advance()
+        {
+            static ::std::atomic<long long> ns{1000000000LL};
+            return ns.fetch_add(700000000LL) + 700000000LL;
+        }
+    }  // namespace detail_vclock
+    struct steady_clock {
+        using duration = ::std::chrono::nanoseconds;
+        using rep = duration::rep;
+        using period = duration::period;
+        using time_point = ::std::chrono::time_point<steady_clock, duration>;
+        static constexpr bool is_steady = true;
+        static time_point now() noexcept { return time_point(duration(detail_vclock::advance())); }
+    };
+    using high_resolution_clock = steady_clock;
+    struct system_clock {
+        using duration = ::std::chrono::nanoseconds;
+        using rep = duration::rep;
+        using period = duration::period;
+        using time_point = ::std::chrono::time_point<system_clock, duration>;
+        static constexpr bool is_steady = false;
+        static time_point now() noexcept { return time_point(duration(detail_vclock::advance())); }
+        static ::std::time_t to_time_t(const time_point& t) noexcept
+        {
+            return (::std::time_t)::std::chrono::duration_cast<::std::chrono::seconds>(t.time_since_epoch()).count();
+        }
+    };
+}  // namespace chrono
+
 namespace detail {
     template<class T>
     inline long as_long(T v)
